@@ -183,8 +183,10 @@ class DTWSettings:
         if self.use_pruning:
             # Keep the internal representation: transforming the distance back (e.g. sqrt followed by
             # a square) can round below the accumulated cost of the Euclidean path itself.
-            self.adj_max_dist = ub_euclidean(s1, s2, inner_dist=self.inner_dist,
-                                             use_ndim=self.use_ndim, keep_int_repr=True)
+            ub = ub_euclidean(s1, s2, inner_dist=self.inner_dist,
+                              use_ndim=self.use_ndim, keep_int_repr=True)
+            # A max_dist given by the user stays in force when it is the tighter bound
+            self.adj_max_dist = min(self.adj_max_dist, ub)
 
     def kwargs(self):
         return {
